@@ -268,6 +268,19 @@ static int sparse_now(void);
 static void list_bare_query(int slot, const char *when);
 static void vector_bare_query(int slot, const char *when);
 static void map_bare_query(int slot, const char *when);
+/* Which of several equal elements a remove() hands back is not said -- equal is equal.  What the list holds afterwards is:
+   "the same elements in the same order" as the ideal sequence, from which the FIRST element equal to the probe has gone.  Taking
+   a later one is the same thing only where everything in between is equal to it as well (then the values that remain, in order,
+   are those of the ideal sequence); with another value in between, [d, m, d] becomes [d, m] where the ideal sequence and the
+   other classes hold [m, d]. */
+static void remove_order_check(const model_t *m, int first, int taken, const char *when)
+{
+    for (int q = first; q <= taken && q < m->len; q++)
+        if (m->key[q] != m->key[first])
+            FAILM("remove-order", "%s: the element at position %d went instead of the first equal one at position %d, with another value (position %d) in between: what remains is not the ideal sequence", when, taken, first, q);
+    probe_hit("later_duplicate_adjacent_run");
+}
+
 static void list_pass(const plan_t *p)
 {
     memset(C, 0, sizeof(C));
@@ -322,7 +335,7 @@ static void list_pass(const plan_t *p)
             got = SPIF_LIST_REMOVE(l, own);
             if (!got) FAILM("remove", "remove(get(%d)) returned NULL", pos);
             elem_ident(got, 0, &r, &kk, &v, k);
-            if (r != m->root[j]) { int alt = -1; for (int q = 0; q < m->len; q++) if (m->root[q] == r && m->key[q] == m->key[pos]) alt = q; if (alt < 0) FAILM("remove", "remove(get(%d)) returned element #%ld, which is not an element equal to the probe", pos, r); j = alt; }
+            if (r != m->root[j]) { int alt = -1; for (int q = 0; q < m->len; q++) if (m->root[q] == r && m->key[q] == m->key[pos]) alt = q; if (alt < 0) FAILM("remove", "remove(get(%d)) returned element #%ld, which is not an element equal to the probe", pos, r); remove_order_check(m, j, alt, k); j = alt; }
             m_del(m, j);
             SPIF_OBJ_DEL(got);
             probe_hit("probe_is_own_element");
@@ -337,7 +350,7 @@ static void list_pass(const plan_t *p)
                 if (!got) FAILM("remove", "remove of a present value (position %d) returned NULL", j);
                 elem_ident(got, 0, &r, &kk, &v, k);
                 /* which of several equal elements goes is not said: the one handed back is the one that must be gone */
-                if (r != m->root[j]) { int alt = -1; for (int q = 0; q < m->len; q++) if (m->root[q] == r && m->key[q] == o->a[1]) alt = q; if (alt < 0) FAILM("remove", "remove returned element #%ld, which is not an element equal to the probe", r); j = alt; probe_hit("removed_a_later_duplicate"); }
+                if (r != m->root[j]) { int alt = -1; for (int q = 0; q < m->len; q++) if (m->root[q] == r && m->key[q] == o->a[1]) alt = q; if (alt < 0) FAILM("remove", "remove returned element #%ld, which is not an element equal to the probe", r); remove_order_check(m, j, alt, k); j = alt; probe_hit("removed_a_later_duplicate"); }
                 if (j == m->len - 1) probe_hit("removed_last");
                 m_del(m, j);
                 SPIF_OBJ_DEL(got);
@@ -486,6 +499,36 @@ static void vector_readback(int slot, const char *when)
     }
 }
 
+/* The same OBJECT may be handed to insert() twice: the multiset then holds it twice (the statement's "duplicate" does not ask
+   whose duplicate), it has to be taken out twice, and it belongs to its owner only once -- so the harness deletes a removed
+   element only when the vector has let go of its last occurrence, and takes surplus occurrences out before a vector is deleted
+   (del() deletes what the vector holds, once per slot). */
+static int vec_holds_ptr(spif_obj_t v, spif_obj_t e, const char *when)
+{
+    spif_obj_t el[MAXLEN];
+    int n = walk(v, el, when), c = 0;
+    for (int q = 0; q < n; q++) if (el[q] == e) c++;
+    return c;
+}
+static void vec_drop_surplus(spif_obj_t v, const char *when)
+{
+    /* remove() takes out *an* element equal to its argument, not necessarily the argument: everything equal to a twice-held
+       object is taken out and each distinct object put back once */
+    spif_obj_t el[MAXLEN], out[MAXLEN], got;
+    int n = walk(v, el, when);
+    for (int a = 0; a < n; a++) {
+        int earlier = 0, no = 0;
+        for (int b = 0; b < a; b++) if (el[b] == el[a]) earlier = 1;
+        if (!earlier || vec_holds_ptr(v, el[a], when) < 2) continue;
+        while ((got = SPIF_VECTOR_REMOVE(v, el[a])) != NULL && no < MAXLEN) {
+            int seen = 0;
+            for (int q = 0; q < no; q++) if (out[q] == got) seen = 1;
+            if (!seen) out[no++] = got;
+        }
+        for (int q = 0; q < no; q++) if (!SPIF_VECTOR_INSERT(v, out[q])) FAILM("return", "%s: insert returned FALSE", when);
+    }
+}
+
 static void vector_pass(const plan_t *p)
 {
     vec_keys = plan_get(p, "keys", 8) + 1;
@@ -580,7 +623,7 @@ static void vector_pass(const plan_t *p)
             if (kk != o->a[1]) FAILM("remove", "remove(find(key %ld)) returned an element with key %ld", o->a[1], kk);
             for (int q = 0; q < m->len; q++) if (m->root[q] == r) j = q;
             if (j < 0) FAILM("remove", "remove returned element #%ld which the ideal multiset does not hold", r);
-            m_del(m, j); SPIF_OBJ_DEL(got);
+            m_del(m, j); if (!vec_holds_ptr(v, got, k)) SPIF_OBJ_DEL(got);
             probe_hit("probe_is_own_element");
         } else if (!strcmp(k, "iter_dup")) {
             iter_dup_check(SPIF_VECTOR_ITERATOR(v), m->len, o->a[1], i, k);
@@ -618,7 +661,7 @@ static void vector_pass(const plan_t *p)
                     if (kk != o->a[1]) FAILM(k[0] == 'f' ? "find" : "remove", "%s(key %ld) returned an element with key %ld", k, o->a[1], kk);
                     for (int q = 0; q < m->len; q++) if (m->root[q] == r) j = q;
                     if (j < 0) FAILM(k[0] == 'f' ? "find" : "remove", "%s returned element #%ld which the ideal multiset does not hold", k, r);
-                    if (k[0] == 'r') { m_del(m, j); SPIF_OBJ_DEL(got); }
+                    if (k[0] == 'r') { m_del(m, j); if (!vec_holds_ptr(v, got, k)) SPIF_OBJ_DEL(got); else probe_hit("one_occurrence_of_two_removed"); }
                 }
             }
             SPIF_OBJ_DEL(probe);
@@ -629,7 +672,21 @@ static void vector_pass(const plan_t *p)
             C[d] = SPIF_OBJ_DUP(v);
             if (!C[d] || C[d] == v) FAILM("dup", "dup returned %s", C[d] ? "the same object" : "NULL");
             M[d] = *m;
+        } else if (!strcmp(k, "insert_again")) {
+            /* insert(v, e) with an e the vector already holds */
+            spif_obj_t el[MAXLEN], pick;
+            long r, kk, vv;
+            int n;
+            if (!m->len || m->len >= MAXLEN - 2) continue;
+            n = walk(v, el, k);
+            if (n != m->len) FAILM("contents", "vector holds %d elements, ideal multiset has %d", n, m->len);
+            pick = el[(unsigned long)o->a[1] % (unsigned long)n];
+            elem_ident(pick, 0, &r, &kk, &vv, k);
+            if (!SPIF_VECTOR_INSERT(v, pick)) FAILM("return", "insert of an object the vector already holds returned FALSE: the multiset holds what was inserted and not removed, however often");
+            m_ins(m, m->len, r, kk, 0);
+            probe_hit("same_object_inserted_twice");
         } else if (!strcmp(k, "del")) {
+            vec_drop_surplus(v, k);
             SPIF_VECTOR_DEL(v);
             C[s] = NULL; m->len = 0;
         } else continue;
@@ -638,7 +695,7 @@ static void vector_pass(const plan_t *p)
         tr_u64("alloc", sa_live_digest());
     }
     R.cur_op = NULL;
-    for (int q = 0; q < NSLOT; q++) if (C[q]) { SPIF_VECTOR_DEL(C[q]); C[q] = NULL; }
+    for (int q = 0; q < NSLOT; q++) if (C[q]) { vec_drop_surplus(C[q], "end"); SPIF_VECTOR_DEL(C[q]); C[q] = NULL; }
 }
 
 /* ------------------------------------------------------------------ C03: maps */
@@ -1022,7 +1079,7 @@ static void gen_vector(plan_t *p, rng_t *r)
         long key = (long)rng_below(r, (uint32_t)krange), edge = rng_chance(r, 1, 6) ? -1L : rng_chance(r, 1, 6) ? (long)krange + 1 : key;
         if (!ex[s]) { plan_op(p, 0, "new", 1, (long)s); ex[s] = 1; len[s] = 0; continue; }
         if (len[s] > cap && k < 45) k = 50 + k % 20;
-        if (k < 45) { plan_op(p, 0, "insert", 2, (long)s, key); len[s]++; }
+        if (k < 45) { if (len[s] && rng_chance(r, 1, 12)) plan_op(p, 0, "insert_again", 2, (long)s, (long)rng_below(r, 1000)); else plan_op(p, 0, "insert", 2, (long)s, key); len[s]++; }      /* (one insertion in twelve hands in an object the vector already holds) */
         else if (k < 62) { if (rng_chance(r, 1, 5)) plan_op(p, 0, "remove", 3, (long)s, key, 1L); else plan_op(p, 0, "remove", 2, (long)s, edge); if (len[s]) len[s]--; }
         else if (k < 76) plan_op(p, 0, "find", 2, (long)s, edge);
         else if (k < 80) plan_op(p, 0, rng_chance(r, 1, 4) ? "iter_dup" : rng_chance(r, 1, 2) ? "iter_beyond" : "iter_partial", 2, (long)s, (long)rng_below(r, 1000));
